@@ -196,6 +196,39 @@ Definition forwards_in_order (it : item) (args : list arg) : bool :=
   list_eqb (flat_map a_srcs args) (param_names it).
 
 (* ------------------------------------------------------------------------------------------------ *)
+(* transmutes: `std::mem::transmute` between a container of wrappers and the same container of wrapped values is
+   only accepted for the REVIEWED container types, and only while every wrapper involved is #[repr(transparent)]
+   over its single field.  (That the two Vec / tuple layouts really coincide is an assumption about rustc that no
+   Gallina model reaches: C18 observes it through the differential run only.) *)
+
+Definition reviewed_transmute_types : list (string * list string) := [
+  ("Vec<(PyUniversal2DBox,Option<i64>)>", ["PyUniversal2DBox"]);
+  ("Vec<(PyUniversal2DBox,Option<f32>)>", ["PyUniversal2DBox"]);
+  ("Vec<PyUniversal2DBox>", ["PyUniversal2DBox"]);
+  ("Vec<PySortTrack>", ["PySortTrack"]);
+  ("PySceneTracks", ["PySortTrack"])
+].
+
+Definition transparent_class (w : string) : bool :=
+  existsb (fun c => String.eqb (c_rust c) w && c_transparent c) classes.
+
+Definition transmute_type_ok (ty : string) : bool :=
+  match find (fun e => String.eqb (fst e) ty) reviewed_transmute_types with
+  | Some (_, ws) => forallb transparent_class ws
+  | None => false
+  end.
+
+Definition param_type (it : item) (p : string) : string :=
+  match find (fun q => String.eqb (p_name q) p) (i_params it) with Some q => p_type q | None => "" end.
+
+Definition transmutes_ok (it : item) : bool :=
+  let args := match i_body it with Delegate _ _ args _ => args | Construct _ args _ => args | FieldWrite _ _ a => [a] | _ => [] end in
+  let rc := match i_body it with Delegate _ _ _ rc => rc | Construct _ _ rc => rc | FieldRead _ rc => rc | _ => [] end in
+  forallb (fun a => if mem "transmute" (a_convs a)
+                    then forallb (fun p => transmute_type_ok (param_type it p)) (a_srcs a) else true) args
+  && (if mem "transmute" rc then transmute_type_ok (i_ret it) else true).
+
+(* ------------------------------------------------------------------------------------------------ *)
 (* getters / setters *)
 
 Definition getter_ok (it : item) : bool :=
@@ -204,8 +237,8 @@ Definition getter_ok (it : item) : bool :=
       match i_params it with
       | [] =>
           match i_body it with
-          | FieldRead f rc => String.eqb f (i_name it) && rconvs_ok rc
-          | Delegate RInner t [] rc => (String.eqb t (i_name it) || String.eqb t ("get_" ++ i_name it)) && rconvs_ok rc
+          | FieldRead f rc => String.eqb f (i_name it) && rconvs_ok rc && transmutes_ok it
+          | Delegate RInner t [] rc => (String.eqb t (i_name it) || String.eqb t ("get_" ++ i_name it)) && rconvs_ok rc && transmutes_ok it
           | _ => false
           end
       | _ => false
@@ -240,6 +273,7 @@ Definition delegate_ok (it : item) : bool :=
     match i_body it with
     | Delegate r t args rc =>
         recv_ok it r t && forwards_in_order it args && forallb (arg_ok (i_class it) (i_name it) t) args && rconvs_ok rc
+        && transmutes_ok it
     | Construct ty args rc =>
         mem3 (i_class it, i_name it, ty) reviewed_constructs
         && forwards_in_order it args
